@@ -105,6 +105,31 @@ def traverse (root : Nat) (fuel : Nat) : List Event × Bool :=
   let r := run g fuel (init g root)
   (r.1.out, r.2)
 
+/-- `DeepStats.add_node` (deep_stats.py) is a fold over the `add_node` calls that bumps one counter per node
+    according to its class; a counter is therefore the number of reported nodes of that class. -/
+def countNodes (p : NodeInfo V → Bool) (out : List Event) : Nat :=
+  out.countP (fun e => match e with
+    | .addNode n _ => p (g n)
+    | .enterDir _ => false)
+
+/-- the object counters of deep-stats, split by "has a verify cap" (count-directories = verifiedDirs +
+    literalDirs, count-files = verifiedFiles + literalFiles, count-literal-files = literalFiles,
+    count-unknown = unknown) -/
+structure Stats where
+  verifiedDirs : Nat
+  literalDirs : Nat
+  verifiedFiles : Nat
+  literalFiles : Nat
+  unknown : Nat
+  deriving DecidableEq, Repr
+
+def deepStats (out : List Event) : Stats where
+  verifiedDirs := countNodes g (fun i => i.kind == .dir && i.verifier.isSome) out
+  literalDirs := countNodes g (fun i => i.kind == .dir && i.verifier.isNone) out
+  verifiedFiles := countNodes g (fun i => i.kind == .file && i.verifier.isSome) out
+  literalFiles := countNodes g (fun i => i.kind == .file && i.verifier.isNone) out
+  unknown := countNodes g (fun i => i.kind == .unknown) out
+
 /-- `get_child_at_path`: follow the names from a node -/
 def resolve (n : Nat) : Path → Option Nat
   | [] => some n
